@@ -16,6 +16,7 @@ import EaselModel.Stats.GevReal
 import EaselModel.Stats.SxpBinnedReal
 import EaselModel.Stats.GammaReal
 import EaselModel.Stats.Format
+import EaselModel.Stats.ExpTailReal
 import EaselModel.Stats.TevdReal
 import EaselModel.Stats.ExpBinnedReal
 import EaselModel.Stats.HistExpectReal
@@ -836,5 +837,31 @@ theorem gev_censored_gradient_is_derivative (xs : Array ℝ) (z : Int) (phi mu w
 theorem plot_number_format_rounds_half_even :
     fmtFBits 0x3f80000000000000 = some "0.007812" ∧ fmtFBits 0x3f98000000000000 = some "0.023438" ∧ fmtFBits 0x3f50000000000000 = some "0.000977" ∧
     fmtFBits 0xc004000000000000 = some "-2.500000" ∧ fmtFBits 0x7ff0000000000000 = none := by decide
+
+/-! ## round 6b: the exponential TAIL fit in terms of the raw data -/
+
+/-- **`esl_histogram_SetTail(phi)` followed by `esl_exp_FitCompleteBinned` is the maximum-likelihood fit of exactly the accepted values above the
+    threshold** — whatever was added before, however the histogram grew, with occupied bins below the threshold or not. `SetTail` succeeds with the
+    bin boundary `φ' ∈ (phi - w, phi]`; if `φ'` is not above every occupied bin, the fit on the resulting histogram (the exact histogram read over ℝ,
+    `Hist.toR`) answers eslOK, location `φ'`, `λ = (1/w)(log(S + N·w) - log S)` with `N` = the NUMBER OF ACCEPTED VALUES `> φ'` (the bins below
+    `cmin` contribute nothing) and `S = Σ_{b ≥ cmin} obs[b]·(LBound(b) - φ')`; that `λ` maximises `-λ'S + N log(1 - e^{-λ'w})` over all `λ' > 0`. -/
+theorem exp_tail_fit_is_ml_of_the_raw_tail (h : Hist ℚ) (vs : List ℚ) (acc : Accounts h vs) (phi : ℚ) (hfin : |phi| ≤ dblMaxQ)
+    (hr : -2147483648 ≤ ⌈(phi - h.bmin) / h.w - 1⌉ ∧ ⌈(phi - h.bmin) / h.w - 1⌉ < 2147483647) :
+    ∃ h' mass, h.setTail phi = .val (.ok, h', mass) ∧ h'.phi ≤ phi ∧ phi - h'.phi < h.w ∧
+      (h'.cmin ≤ h.imax + 1 →
+        let hR := h'.toR
+        let k := (hR.imax - hR.cmin + 1).toNat
+        let S := wsum hR.obs (fun j => hR.lbound j - hR.phi) k hR.cmin
+        let N : ℝ := ((vs.countP (fun x => decide (h'.phi < x)) : Nat) : ℝ)
+        expFitCompleteBinned hR = .res .ok #[((h'.phi : ℚ) : ℝ), 1 / hR.w * (Real.log (S + N * hR.w) - Real.log S)] ∧
+        (0 < S → 0 < N → ∀ lam' : ℝ, 0 < lam' →
+          llExpBinned S N hR.w lam' ≤ llExpBinned S N hR.w (1 / hR.w * (Real.log (S + N * hR.w) - Real.log S)))) :=
+  exp_tail_fit_of_raw_data h vs acc phi hfin hr
+
+/-- the count behind it, for any cutoff bin `0 ≤ b ≤ imax+1` of any history: `Σ obs[b..imax]` (the `N` of the closed form) is the number of accepted
+    values above `LBound(b)` -/
+theorem exp_tail_counts_only_the_tail (h : Hist ℚ) (vs : List ℚ) (acc : Accounts h vs) (b : Int) (hb0 : 0 ≤ b) (hb1 : b ≤ h.imax + 1) :
+    wsum h.obs (fun _ => 1) (h.imax - b + 1).toNat b = ((vs.countP (fun x => decide (h.bmin + b * h.w < x)) : Nat) : ℝ) :=
+  exp_tail_N_counts_raw h vs acc b hb0 hb1
 
 end EaselModel.Props.C11
